@@ -11,7 +11,7 @@ else
   rm -f _CoqProject.new
 fi
 if [ "$1" = "--targets" ]; then
-  timeout 3000 make -j12 $2 > .make.$$.log 2>&1; rc=$?
+  timeout 3000 make -j12 COQC="timeout 900 coqc" $2 > .make.$$.log 2>&1; rc=$?
   [ $rc -ne 0 ] && tail -40 .make.$$.log
   rm -f .make.$$.log
   exit $rc
@@ -21,7 +21,7 @@ claimed=$(/venv/bin/python -c "
 import json
 m = json.load(open('../MANIFEST.json'))
 print(' '.join('props/%s.vo corr/K_%s.vo' % (c['property_id'], c['property_id']) for c in m['checks']))")
-timeout 3000 make -j16 $claimed > .make.claimed.log 2>&1; rc=$?
+timeout 3000 make -j16 COQC="timeout 900 coqc" $claimed > .make.claimed.log 2>&1; rc=$?
 [ $rc -ne 0 ] && tail -40 .make.claimed.log
 cd ..
 # jsonschema (for C19 only) from the offline wheelhouse into a /verif-local directory
